@@ -828,7 +828,10 @@ def run(ctx):
         if any(is_call(values.strip_payload(x)) and strip_generics(values.strip_payload(x)[1]).endswith("slice::get") for x in (a, b)):
             a, b = unopt(a), unopt(b)
         sl, c = (a, b) if a[0] == "index" else (b, a)
-        okm = sl[0] == "index" and sl[1] == ("param", irr.path, 1) and sl[2][0] == "agg" and c == ("bytes", magic) and \
+        base_ = sl[1] if sl[0] == "index" else None
+        if isinstance(base_, tuple) and base_ and base_[0] == "index" and isinstance(base_[2], tuple) and base_[2][0] == "agg" and str(base_[2][1]).endswith("RangeTo::RangeTo"):
+            base_ = base_[1]        # `datagram = &buf[..num_bytes]` compared on its first bytes: the same bytes of buf
+        okm = sl[0] == "index" and base_ == ("param", irr.path, 1) and sl[2][0] == "agg" and c == ("bytes", magic) and \
             (sl[2][2] == (("int", 0), ("int", len(magic))) or (str(sl[2][1]).endswith("RangeTo::RangeTo") and sl[2][2] == (("int", len(magic)),)))
     if not okm and is_call(r) and callee_name(r[1]) == "starts_with" and len(r[2]) == 2:
         # buf.starts_with(MAGIC) is the same test (and false, not a panic, for inputs shorter than the magic)
@@ -867,7 +870,15 @@ def run(ctx):
                 if users and all(splits_only(nm, t2) for nm, t2 in users):
                     continue
                 slices.append((str(a[1][1]).split("::")[-1], tuple(x[1] if x[0] == "int" else None for x in a[1][2])))
-    from lib import le_u32_source
+    from lib import le_u32_source, flat_const_range
+    for bb, t in nrr.calls():
+        # the length word read from a slice of a slice (`let (header, body) = buf.split_at(12); .. &header[8..]`): the same bytes of buf
+        if callee_name(t["fn"].get("path", "")) in ("read_u32", "from_le_bytes"):
+            src0 = le_u32_source(W, nev.call_term(bb))
+            if src0 is not None:
+                b_, lo_, hi_ = flat_const_range(W, src0)
+                if b_ == ("param", nrr.path, 1) and hi_ is not None and not (isinstance(src0, tuple) and src0[0] == "index" and src0[1] == b_):
+                    slices.append(("Range", (lo_, hi_)))
     for bb, t in nrr.calls():
         # the length word read byte by byte: from_le_bytes([buf[8], buf[9], buf[10], buf[11]])
         if callee_name(t["fn"].get("path", "")) == "from_le_bytes":
